@@ -12,6 +12,7 @@ type Decision struct {
 	L      uint64 `json:"l"`
 	To     int    `json:"to"`
 	Forced bool   `json:"f,omitempty"`
+	Sel    bool   `json:"sel,omitempty"`
 }
 
 type Faults struct {
